@@ -204,9 +204,9 @@ def representatives(consts, nvars, lo=0, hi=255):
     return sorted(r)
 
 
-def decide(F, rep, rule, path, shape, spec, allow=(), site_fn=None):
+def decide(F, rep, rule, path, shape, spec, allow=(), site_fn=None, cls=None):
     """shape: list of parameter arities (1 = scalar u8, 3 = Version triple). spec(args)->expected result."""
-    ev = Evaluator(F, allow_calls=set(allow) | {path})
+    ev = (cls or Evaluator)(F, allow_calls=set(allow) | {path})
     b = F.body(path)
     if b is None:
         rep.ob(rule, False, path, "missing", "predicate %s not found" % path)
